@@ -51,6 +51,7 @@ var (
 
 	errNoHugePageSupport           = &kernel.Error{Module: "vmm", Message: "huge pages are not supported"}
 	errAttemptToRWMapReservedFrame = &kernel.Error{Module: "vmm", Message: "reserved blank frame cannot be mapped with a RW flag"}
+	errRegionSizeTooLarge          = &kernel.Error{Module: "vmm", Message: "region size cannot be rounded up to a page boundary"}
 )
 
 // Map establishes a mapping between a virtual page and a physical mmory frame
@@ -113,6 +114,11 @@ func Map(page mm.Page, frame mm.Frame, flags PageTableEntryFlag) *kernel.Error {
 // available region in the active virtual address space, establishes the
 // mapping and returns back the Page that corresponds to the region start.
 func MapRegion(frame mm.Frame, size uintptr, flags PageTableEntryFlag) (mm.Page, *kernel.Error) {
+	// rounding the size up to the next page boundary would wrap around
+	if size > ^uintptr(0)-(mm.PageSize-1) {
+		return 0, errRegionSizeTooLarge
+	}
+
 	// Reserve next free block in the address space
 	size = (size + (mm.PageSize - 1)) & ^(mm.PageSize - 1)
 	startPage, err := earlyReserveRegionFn(size)
@@ -136,6 +142,11 @@ func MapRegion(frame mm.Frame, size uintptr, flags PageTableEntryFlag) (mm.Page,
 // IdentityMapRegion returns back the Page that corresponds to the region
 // start.
 func IdentityMapRegion(startFrame mm.Frame, size uintptr, flags PageTableEntryFlag) (mm.Page, *kernel.Error) {
+	// rounding the size up to the next page boundary would wrap around
+	if size > ^uintptr(0)-(mm.PageSize-1) {
+		return 0, errRegionSizeTooLarge
+	}
+
 	startPage := mm.Page(startFrame)
 	pageCount := mm.Page(((size + (mm.PageSize - 1)) & ^(mm.PageSize - 1)) >> mm.PageShift)
 
